@@ -171,6 +171,9 @@ func (rc *RegClient) ManifestHead(ctx context.Context, r ref.Ref, opts ...Manife
 	for opt.platform != nil && m.IsList() {
 		if !m.IsSet() {
 			m, err = schemeAPI.ManifestGet(ctx, r)
+			if err != nil {
+				return m, err
+			}
 		}
 		d, err := manifest.GetPlatformDesc(m, opt.platform)
 		if err != nil {
